@@ -157,6 +157,14 @@ func addStray(n *spec.Node, tag string, vals url.Values) {
 		f := &n.Fields[i]
 		if f.Node.Kind == spec.Struct {
 			vals.Set(f.DataKey(tag), "stray-value")
+			// parameters spelled like a path into the nested struct (parent.child, parent[child]): not the nested fields either
+			for j := range f.Node.Fields {
+				ck := f.Node.Fields[j].DataKey(tag)
+				if tag != "env" {
+					vals[f.DataKey(tag)+"."+ck] = []string{"stray-dotted"}
+					vals[f.DataKey(tag)+"["+ck+"]"] = []string{"stray-bracketed"}
+				}
+			}
 			addStray(f.Node, tag, vals)
 			continue
 		}
